@@ -17,6 +17,7 @@ PROPS = {
             "handle_shift_rhs (src/passes/const_simplify.rs) - Kani function contract, proved, then used via stub_verified",
             "ScalarValue::read_as_int / read_as_float / cast_by_ty_sigil (src/value.rs)",
             "ast::BinOpKind::negate_comparison, ast::AssignOpKind::corresponding_binop (src/ast/mod.rs)",
+            "From<ScalarValue> for ast::Expr, ast::Expr::{to_const, as_const_int, as_const_float}: literal <-> value round trip",
         ],
         "unverified": [
             "the two tree walkers that call const_eval (const_simplify::Visitor::visit_expr, context::consts::_const_eval): "
@@ -62,12 +63,16 @@ PROPS = {
             "IntoIter32::next, ExactSizeIterator::len (src/bitset.rs)",
             "DiffSwitchMeta::{new, update, explicit_case_bitmasks, switch_from_explicit_cases} (src/diff_switch_utils.rs)",
             "select_diff_switch_case (src/diff_switch_utils.rs)",
+            "DiffFlagDefs::{difficulty_bits, aux_bits} (src/context/diff_flags.rs): the flag partition only",
         ],
         "unverified": [
             "FIRST SENTENCE OF THE PROPERTY (label string <-> mask under every flag-definition set): DiffFlagDefs is two BTreeMaps "
             "(src/context/diff_flags.rs); CBMC gave no verdict in 600 s and Verus cannot take String/chars/BTreeMap code",
             "elaborate_diff_switches / select_diff_for_lower_args (src/llir/lower.rs) and recognize_diff_switch "
-            "(src/llir/raise/recognize.rs): the callers that combine the helpers, including 'aux bits are left as the label set them'",
+            "(src/llir/raise/recognize.rs): the callers that combine the helpers, including 'aux bits are left as the label set them' "
+            "(measured: a harness on elaborate_diff_switches with one 2-position switch gives no verdict in 600 s - recursive LowerArg "
+            "clone/drop with heap-stored enum discriminants)",
+            "difficulty labels on blocks (passes/desugar_blocks.rs)",
             "explicit_difficulty_cases (src/diff_switch_utils.rs): CBMC exhausts 32 GB even for n <= 3",
             "validate_difficulty (equal switch lengths, at most 8 cases): assumed as the precondition n <= 8",
         ],
@@ -101,7 +106,8 @@ PROPS = {
     "C15": {
         "functions_under_contract": [
             "AcceleratingByteMask::{next, constant} (src/llir/abi.rs)",
-            "Encoded::{apply_xor_mask, null_pad, trim_first_nul, len} (src/io.rs)",
+            "Encoded::{apply_xor_mask, null_pad, trim_first_nul, len, encode_fixed_size} (src/io.rs; encode_fixed_size with the "
+            "transcoder replaced by a stub returning arbitrary bytes)",
             "BinWrite::write_cstring, BinRead::read_cstring_blockwise on an in-memory Cursor (src/io.rs)",
         ],
         "unverified": [
@@ -109,8 +115,8 @@ PROPS = {
             "'unambiguously representable' in the property is a statement about that crate's tables)",
             "the order in which encode_args / decode_args call the leaves (NUL, furigana append, pad, mask) and the furigana state: "
             "inside functions neither back end can reach (C12). A change that reorders those calls is NOT detected; a change inside a leaf is",
-            "Pascal length prefix, mission.rs line cipher (wrapping add/sub of the same stream), std.rs / mission.rs fixed 128/64-byte names "
-            "(they call encode_fixed_size)",
+            "Pascal length prefix, mission.rs line cipher (wrapping add/sub of the same stream); the callers of encode_fixed_size "
+            "(std.rs 128-byte names, mission.rs 64-byte lines)",
             "diagnostics: that 'unencodable' and 'does not fit' are reported (error paths reach the diagnostics renderer)",
         ],
         "bounds": [
@@ -146,11 +152,18 @@ PROPS = {
             "InstrFormat::{write_instr, read_instr, write_terminal_instr, instr_size, instr_header_size} for MsgHooks (src/formats/msg.rs), "
             "InstrFormat06 and InstrFormat07 (src/formats/anm/read_write.rs), StdHooks06 and StdHooks10 (src/formats/std.rs), "
             "OldeEclHooks{Th06,Th07}, TimelineFormat06, TimelineFormat08 (src/formats/ecl/ecl_06.rs), ModernEclHooks (src/formats/ecl/ecl_10.rs)",
+            "llir::fit_instr_field, llir::forbid_reserved_opcode (src/llir/mod.rs) - guards with their own contract (c03_guard_*)",
+            "LanguageHooks::{encode_label, decode_label}: default (absolute), StdHooks06 (index = offset/20), OldeEclHooks and "
+            "ModernEclHooks (signed relative)",
+            "anm FileFormat::{write_header, read_header} (TH06 and TH07+ entry header layouts), fit_header_field, write_sprite / read_sprite "
+            "(src/formats/anm/read_write.rs)",
+            "std write_quad / read_quad / write_terminal_quad (src/formats/std.rs)",
             "BinWriter / BinReader primitive reads and writes on an in-memory Cursor (executed, not stubbed)",
         ],
         "unverified": [
-            "file-level tables, counts, offsets and strings: anm entry headers, std object/instance tables, msg script table, "
-            "ecl_06 sub/timeline tables, mission.rs - written through IndexMaps and seeks CBMC cannot get through",
+            "file-level tables, counts, offsets and strings beyond the leaves listed above: anm write_entry (sprite/script offset tables, "
+            "path offsets patched in by seeks), std write_std / object and instance tables (IndexMap), msg script table, ecl_06 sub/timeline "
+            "tables, ecl_10 string lists, mission.rs - written through IndexMaps and seeks CBMC cannot get through",
             "argument values inside the blob (encode_args widths, C12): the blob is treated as opaque bytes",
             "llir::write_instrs / read_instrs loops over a script and the end-offset logic for MaybeTerminal",
             "that a rejected value is reported with a rendered diagnostic (the error path reaches the renderer)",
